@@ -16,14 +16,14 @@
 //!   T<i> STAMPS s s s ...      (stamped) global stamp of each creation
 //!   SINGLE p p p ...           (mode single) the first N priorities of one thread alone
 
-use rlib_treap::{Treap, TreapItem, TreapItemSized, TreapNode};
+use rlib_treap::{Treap, TreapItem, TreapItemSized, TreapNode, TreePrinter};
 use std::sync::atomic::{AtomicU64, AtomicUsize, Ordering};
 use std::sync::Arc;
 
 /// The item type stored in a thread's treap.  Threads use DIFFERENT item types (hence different
 /// node layouts): shared state keyed on anything layout-dependent (allocation caches, pools)
 /// is only exercised when the layouts differ.
-trait ItemLike: TreapItem + TreapItemSized + Send + 'static {
+trait ItemLike: TreapItem + TreapItemSized + std::fmt::Debug + Send + 'static {
     fn make(id: u32) -> Self;
     fn id(&self) -> u32;
 }
@@ -31,6 +31,11 @@ trait ItemLike: TreapItem + TreapItemSized + Send + 'static {
 struct Item {
     id: u32,
     sz: usize,
+}
+impl std::fmt::Debug for Item {
+    fn fmt(&self, f: &mut std::fmt::Formatter<'_>) -> std::fmt::Result {
+        write!(f, "{}", self.id)
+    }
 }
 impl TreapItem for Item {
     fn update(&mut self, l: Option<&Self>, r: Option<&Self>) {
@@ -55,6 +60,11 @@ struct BigItem {
     id: u32,
     sz: usize,
     pad: [u64; 5],
+}
+impl std::fmt::Debug for BigItem {
+    fn fmt(&self, f: &mut std::fmt::Formatter<'_>) -> std::fmt::Result {
+        write!(f, "#{}", self.id)
+    }
 }
 impl TreapItem for BigItem {
     fn update(&mut self, l: Option<&Self>, r: Option<&Self>) {
@@ -111,6 +121,23 @@ struct ThreadOut {
     prios: Vec<u32>,
     stamps: Vec<u64>,
     func: String,
+    /// digests of the treap's Debug dump and TreePrinter dump, taken while other threads run
+    prints: Vec<u64>,
+}
+
+fn fnv(s: &str) -> u64 {
+    let mut h: u64 = 0xcbf2_9ce4_8422_2325;
+    for b in s.bytes() {
+        h ^= b as u64;
+        h = h.wrapping_mul(0x0000_0100_0000_01b3);
+    }
+    h
+}
+
+/// Dumps the treap through both formatting paths of the library and digests the text.
+fn dump<T: ItemLike>(t: &Treap<T>, out: &mut Vec<u64>) {
+    out.push(fnv(&format!("{:?}", t)));
+    out.push(fnv(&format!("{:?}", TreePrinter::new(t))));
 }
 
 fn find_priority<T: ItemLike>(node: &Option<Box<TreapNode<T>>>, id: u32) -> Option<u32> {
@@ -123,19 +150,19 @@ fn find_priority<T: ItemLike>(node: &Option<Box<TreapNode<T>>>, id: u32) -> Opti
 
 /// One thread's private history.  Every node-creating step creates exactly one node.
 /// Thread `tid`'s history with the item type chosen by the thread index.
-fn history(tid: usize, hseed: u64, ops: usize, long: usize, churn: usize, stagger: usize, stamped: bool, baton: Option<&Baton>) -> ThreadOut {
+fn history(tid: usize, hseed: u64, ops: usize, long: usize, bulk: usize, churn: usize, stagger: usize, stamped: bool, baton: Option<&Baton>) -> ThreadOut {
     if tid % 2 == 1 {
-        history_t::<BigItem>(tid, hseed, ops, long, churn, stagger, stamped, baton)
+        history_t::<BigItem>(tid, hseed, ops, long, bulk, churn, stagger, stamped, baton)
     } else {
-        history_t::<Item>(tid, hseed, ops, long, churn, stagger, stamped, baton)
+        history_t::<Item>(tid, hseed, ops, long, bulk, churn, stagger, stamped, baton)
     }
 }
 
-fn history_t<T: ItemLike>(tid: usize, hseed: u64, ops: usize, long: usize, churn: usize, stagger: usize, stamped: bool, baton: Option<&Baton>) -> ThreadOut {
+fn history_t<T: ItemLike>(tid: usize, hseed: u64, ops: usize, long: usize, bulk: usize, churn: usize, stagger: usize, stamped: bool, baton: Option<&Baton>) -> ThreadOut {
     let mut rng = hseed ^ ((tid as u64 + 1) << 32);
     let mut t: Treap<T> = Treap::new();
     let mut model: Vec<u32> = Vec::new();
-    let mut out = ThreadOut { prios: Vec::new(), stamps: Vec::new(), func: String::new() };
+    let mut out = ThreadOut { prios: Vec::new(), stamps: Vec::new(), func: String::new(), prints: Vec::new() };
     // optional staggered start: some threads begin a few scheduling points later
     for _ in 0..stagger * tid {
         std::thread::yield_now();
@@ -157,6 +184,30 @@ fn history_t<T: ItemLike>(tid: usize, hseed: u64, ops: usize, long: usize, churn
             b.release();
         }
         out.prios.push(node.priority);
+    }
+    // optional bulk phase: a treap of `bulk` elements built by appends, then dumped through the
+    // library's Debug / TreePrinter paths while the other threads do the same
+    for _ in 0..bulk {
+        let id = next_id;
+        next_id += 1;
+        if let Some(b) = baton {
+            b.acquire(tid);
+        }
+        // append through from_item + merge: the new node's priority is readable in O(1)
+        let single = Treap::from_item(T::make(id));
+        let prio = single.root.as_ref().map(|n| n.priority).expect("from_item root");
+        t = Treap::merge(std::mem::replace(&mut t, Treap::new()), single);
+        model.push(id);
+        if stamped {
+            out.stamps.push(STAMP.fetch_add(1, Ordering::Relaxed));
+        }
+        if let Some(b) = baton {
+            b.release();
+        }
+        out.prios.push(prio);
+    }
+    if bulk > 0 {
+        dump(&t, &mut out.prints);
     }
     for step in 0..ops {
         let r = splitmix(&mut rng);
@@ -279,6 +330,9 @@ fn history_t<T: ItemLike>(tid: usize, hseed: u64, ops: usize, long: usize, churn
         }
         out.prios.push(prio);
     }
+    if bulk > 0 {
+        dump(&t, &mut out.prints);
+    }
     let got: Vec<u32> = t.collect().into_iter().map(|i| i.id()).collect();
     if got != model && mismatch.is_none() {
         mismatch = Some(format!("final collect {:?} expected {:?}", got, model));
@@ -301,6 +355,7 @@ fn list(s: &str) -> Vec<usize> {
 fn print_out(tid: usize, o: &ThreadOut, stamped: bool) {
     println!("T{} PRIO {}", tid, o.prios.iter().map(|p| p.to_string()).collect::<Vec<_>>().join(" "));
     println!("T{} FUNC {}", tid, o.func);
+    println!("T{} PRINT {}", tid, o.prints.iter().map(|p| format!("{:016x}", p)).collect::<Vec<_>>().join(" "));
     if stamped {
         println!("T{} STAMPS {}", tid, o.stamps.iter().map(|p| p.to_string()).collect::<Vec<_>>().join(" "));
     }
@@ -313,6 +368,7 @@ fn main() {
     let hseed: u64 = arg(&args, "--hseed").and_then(|s| s.parse().ok()).unwrap_or(1);
     let ops: usize = arg(&args, "--ops").and_then(|s| s.parse().ok()).unwrap_or(10);
     let long: usize = arg(&args, "--long").and_then(|s| s.parse().ok()).unwrap_or(0);
+    let bulk: usize = arg(&args, "--bulk").and_then(|s| s.parse().ok()).unwrap_or(0);
     let churn: usize = arg(&args, "--churn").and_then(|s| s.parse().ok()).unwrap_or(0);
     let stagger: usize = arg(&args, "--stagger").and_then(|s| s.parse().ok()).unwrap_or(0);
     let stamped = args.iter().any(|a| a == "--stamped");
@@ -331,7 +387,7 @@ fn main() {
             let perm = arg(&args, "--perm").map(|s| list(&s)).unwrap_or_else(|| (0..threads).collect());
             let mut outs: Vec<Option<ThreadOut>> = (0..threads).map(|_| None).collect();
             for &tid in &perm {
-                let h = std::thread::spawn(move || history(tid, hseed, ops, long, churn, stagger, stamped, None));
+                let h = std::thread::spawn(move || history(tid, hseed, ops, long, bulk, churn, stagger, stamped, None));
                 outs[tid] = Some(h.join().unwrap());
             }
             for (tid, o) in outs.iter().enumerate() {
@@ -345,7 +401,7 @@ fn main() {
             let hs: Vec<_> = (0..threads)
                 .map(|tid| {
                     let b = baton.clone();
-                    std::thread::spawn(move || history(tid, hseed, ops, long, churn, 0, stamped, Some(&b)))
+                    std::thread::spawn(move || history(tid, hseed, ops, long, bulk, churn, 0, stamped, Some(&b)))
                 })
                 .collect();
             for (tid, h) in hs.into_iter().enumerate() {
@@ -366,7 +422,7 @@ fn main() {
                         if let Some(g) = &gate {
                             g.wait();
                         }
-                        history(tid, hseed, ops, long, churn, stagger, stamped, None)
+                        history(tid, hseed, ops, long, bulk, churn, stagger, stamped, None)
                     })
                 })
                 .collect();
@@ -375,7 +431,7 @@ fn main() {
                 if let Some(g) = &gate {
                     g.wait();
                 }
-                outs.push(history(0, hseed, ops, long, churn, stagger, stamped, None));
+                outs.push(history(0, hseed, ops, long, bulk, churn, stagger, stamped, None));
             }
             for h in hs {
                 outs.push(h.join().unwrap());
